@@ -172,7 +172,7 @@ class Ctx:
         self.stats = dict.fromkeys(
             ["mode_switch", "alias_now", "late_join", "del_then_train", "del_shared_then_train", "two_on_cell",
              "tstep", "tstep_value", "train_steps", "dropped", "gc_checked", "skipped", "shadow_skipped",
-             "unique_replace", "clears", "obs"], 0)
+             "unique_replace", "clears", "obs", "updates"], 0)
         self.pending_del = False  # a deletion happened, no training step of a survivor yet
         self.pending_del_shared = False
         self.feedback_prev = None
@@ -457,7 +457,7 @@ def _apply(ctx: Ctx, op):
         idx = pick_trainer(op[1])
         if idx is None:
             return
-        mode = bool(op[2] % 2)
+        mode = (op[2] % 3) != 0
         if mode != w.trainers[idx].training:
             st_["mode_switch"] += 1
         with impl(ctx.what):
@@ -465,7 +465,7 @@ def _apply(ctx: Ctx, op):
         check(r is im.trainers[idx], "mode:return", lambda: f"{ctx.what}: train()/eval() did not return the trainer", ctx.info())
         w.set_trainer_mode(idx, mode)
     elif name == "lmode":
-        mode = bool(op[1] % 2)
+        mode = (op[1] % 3) != 0
         if mode != w.layer_training:
             st_["mode_switch"] += 1
         with impl(ctx.what):
@@ -477,7 +477,7 @@ def _apply(ctx: Ctx, op):
         _trainer_step(ctx, pick_trainer(op[1]), op[2])
     elif name == "update":
         idx = pick_trainer(op[1])
-        use_trainer = case["trainer_update"] and idx is not None and (op[2] % 2 == 0)
+        use_trainer = idx is not None and (op[2] % 2 == 0)
         _update(ctx, idx if use_trainer else None)
     elif name == "clear":
         idx = pick_trainer(op[1])
@@ -655,12 +655,27 @@ def _update(ctx: Ctx, idx):
     after = _acc_state(im)
     pafter = _params(im)
     for (cname, p), (pos, neg) in after.items():
+        pi = 0 if p == "weight" else 1
+        delta = pafter[cname][pi] - pbefore[cname][pi]
+        bpos, bneg = before[(cname, p)]
         if cname in applied:
-            check(not pos and not neg, "update:pending", lambda: f"{ctx.what}: accumulator {cname}.{p} not emptied by update", ctx.info())
+            # applied exactly once ("each updater is called once, even if present in multiple cells"):
+            # default reduction is the sum of the parts, default binding pos - neg
+            want = np.zeros_like(delta)
+            for part in bpos:
+                want = want + part
+            for part in bneg:
+                want = want - part
+            check(_close(delta, want), "update:value",
+                  lambda: f"{ctx.what}: {cname}.{p} changed by {np.round(delta, 5).tolist()}, accumulated update was "
+                          f"{np.round(want, 5).tolist()}", ctx.info())
+            if idx is None:  # Layer.update(clear=True)
+                check(not pos and not neg, "update:pending", lambda: f"{ctx.what}: accumulator {cname}.{p} not emptied by layer.update()", ctx.info())
         else:
-            same = len(pos) == len(before[(cname, p)][0]) and len(neg) == len(before[(cname, p)][1])
-            check(same and np.array_equal(pafter[cname][0], pbefore[cname][0]), "update:foreign",
-                  lambda: f"{ctx.what}: update touched connection {cname}, which has no cell in trainer{idx}", ctx.info())
+            same = len(pos) == len(bpos) and len(neg) == len(bneg)
+            check(same and not np.any(delta), "update:foreign",
+                  lambda: f"{ctx.what}: update touched {cname}.{p}, which has no cell in trainer{idx}", ctx.info())
+    ctx.stats["updates"] += 1
 
 
 # ---------------------------------------------------------------------------- run
@@ -693,7 +708,7 @@ def run_lifecycle(case):
     s = ctx.stats
     cls = [f"topo={case['topo']}", "trainers=" + "+".join(case["trainers"])]
     for k in ("late_join", "del_then_train", "del_shared_then_train", "two_on_cell", "tstep", "tstep_value",
-              "dropped", "gc_checked", "unique_replace", "clears", "mode_switch", "shadow_skipped", "alias_now"):
+              "dropped", "gc_checked", "unique_replace", "clears", "updates", "mode_switch", "shadow_skipped", "alias_now"):
         if s[k]:
             cls.append(k)
     nt = bool(s["alias_now"] and s["del_then_train"] and s["mode_switch"] and s["train_steps"] >= 2)
@@ -711,28 +726,24 @@ _bits = st.integers(0, 2 ** 20 - 1)
 
 def _op():
     r = _raw
-    return st.one_of(
-        st.tuples(st.just("reg"), r, r, st.sampled_from([0, 0, 0, 1, 2])),
-        st.tuples(st.just("reg"), r, r, st.sampled_from([0, 0, 0, 1, 2])),
-        st.tuples(st.just("delc"), r, r),
-        st.tuples(st.just("delc"), r, r),
-        st.tuples(st.just("addm"), r, r, r, r, r, r, r, r),
-        st.tuples(st.just("addm"), r, r, r, r, r, r, r, r),
-        st.tuples(st.just("delm"), r, r),
-        st.tuples(st.just("tmode"), r, r, r),
-        st.tuples(st.just("lmode"), r),
-        st.tuples(st.just("step"), _bits),
-        st.tuples(st.just("step"), _bits),
-        st.tuples(st.just("step"), _bits),
-        st.tuples(st.just("tstep"), r, r),
-        st.tuples(st.just("tstep"), r, r),
-        st.tuples(st.just("update"), r, r),
-        st.tuples(st.just("clear"), r),
-        st.tuples(st.just("lclear")),
-        st.tuples(st.just("drop"), r),
-        st.tuples(st.just("newtr"), r),
-        st.tuples(st.just("gc")),
-    ).map(list)
+    hp = st.sampled_from([0, 0, 0, 1, 2])
+    weighted = [
+        (3, st.tuples(st.just("reg"), r, r, hp)),
+        (3, st.tuples(st.just("delc"), r, r)),
+        (3, st.tuples(st.just("addm"), r, r, r, r, r, r, r, r)),
+        (2, st.tuples(st.just("delm"), r, r)),
+        (2, st.tuples(st.just("tmode"), r, r, r)),
+        (2, st.tuples(st.just("lmode"), r)),
+        (4, st.tuples(st.just("step"), _bits)),
+        (2, st.tuples(st.just("tstep"), r, r)),
+        (1, st.tuples(st.just("update"), r, r)),
+        (1, st.tuples(st.just("clear"), r)),
+        (1, st.tuples(st.just("lclear"))),
+        (1, st.tuples(st.just("drop"), r)),
+        (1, st.tuples(st.just("newtr"), r)),
+        (1, st.tuples(st.just("gc"))),
+    ]
+    return st.one_of(*[s_ for w_, s_ in weighted for _ in range(w_)]).map(list)
 
 
 _STRUCT = {"reg", "delc", "addm", "delm", "tmode", "lmode", "clear", "drop", "newtr"}
@@ -749,32 +760,55 @@ def lifecycle_case(draw, tier="quick"):
         pool = ["STDP", "STDP", "MSTDP", "MSTDPET", "TripletSTDP", "KernelSTDP", "LinearHomeostasis"]
     ntr = draw(st.sampled_from([1, 2, 2]))
     trainers = [draw(st.sampled_from(pool)) for _ in range(ntr)]
-    maxops = 30 if tier == "quick" else 60
-    body = draw(st.lists(_op(), min_size=4, max_size=maxops))
+    maxops = 24 if tier == "quick" else 50
+    body = draw(st.lists(_op(), min_size=3, max_size=maxops))
     ncell = len(CELLS[topo])
+    chance = lambda k: draw(st.integers(0, 9)) < k  # noqa: E731
+    bits = lambda: draw(_bits)  # noqa: E731
+    t0 = draw(st.integers(0, 1))
     ops = []
-    # bias: register two cells that share a population early, in the same trainer
-    if draw(st.integers(0, 9)) < 8:
-        t0 = draw(_raw)
+    # bias (DESIGN C15/NT): register two cells that share a population early, in the same trainer ...
+    if chance(8):
         hp = draw(st.sampled_from([0, 0, 0, 1]))
-        first = draw(st.integers(0, ncell - 1))
+        first = draw(st.sampled_from([0, 0, 0, 1, 2, 3])) % ncell
         ops.append(["reg", t0, first, hp])
-        if draw(st.booleans()):
-            ops.append(["step", draw(_bits)])
+        if chance(5):
+            ops.append(["step", bits()])  # the second cell joins late: shared objects already hold history
         ops.append(["reg", t0, first + 1, draw(st.sampled_from([hp, hp, hp, 1 - min(hp, 1)]))])
-        ops.append(["step", draw(_bits)])
-    follow = draw(st.integers(0, 9)) < 8
+        ops.append(["step", bits()])
+        if ntr == 2 and chance(5):
+            ops.append(["reg", t0 + 1, first + draw(st.integers(0, 1)), draw(st.sampled_from([0, 0, 1]))])
+            ops.append(["step", bits()])
+    blocks = []
+    if chance(5):  # a pooled probe on two cells
+        c, nm, at, k, g = draw(_raw), draw(_raw), draw(_raw), draw(_raw), draw(_raw)
+        blocks.append([["addm", t0, c, nm, at, k, 1, g, draw(_raw)], ["addm", t0, c + 1, nm, at, k, 1, g, 1],
+                       ["step", bits()]])
+    if chance(8):  # ... delete one of them, then step (in training mode unless the body switched it off)
+        d = ["delc", t0, draw(_raw)] if chance(6) else ["delm", t0, draw(_raw)]
+        blocks.append([d, ["step", bits()], ["tstep", t0, draw(_raw)]])
+    if chance(8):  # a train/eval round trip of trainer or layer with steps inside and after
+        if chance(6):
+            t = draw(st.integers(0, 1))
+            blocks.append([["tmode", t, 0, 0], ["step", bits()], ["tmode", t, 1, draw(_raw)], ["step", bits()]])
+        else:
+            blocks.append([["lmode", 0], ["step", bits()], ["lmode", 1], ["step", bits()]])
+    follow = chance(8)
+    out = []
     for op in body:
-        ops.append(op)
+        out.append([op])
         if follow and op[0] in _STRUCT:
-            ops.append(["step", draw(_bits)])  # always follow a structural rule by a layer step
+            out[-1].append(["step", bits()])  # always follow a structural rule by a layer step
+    for b in blocks:
+        out.insert(draw(st.integers(0, len(out))), b)
+    for grp in out:
+        ops.extend(grp)
     return {
         "topo": topo, "B": B, "delayed": delayed, "trainers": trainers, "ops": ops,
         # regions behind known findings are excluded by construction unless drawn in
         "allow_shadow": draw(st.integers(0, 9)) == 0,
         "allow_mixed_trace": draw(st.integers(0, 9)) == 0,
-        "trainer_update": draw(st.integers(0, 9)) == 0,
-        "allow_drop_last": draw(st.booleans()),
+        "allow_drop_last": draw(st.integers(0, 4)) == 0,
     }
 
 
